@@ -65,7 +65,10 @@ func cellPath(addr ssa.Value, depth int) string {
 
 // accOfValue: which accumulator the slice/string value v is the current content of.
 func accOfValue(v ssa.Value, li *loopInfo) accRef {
-	seen := map[ssa.Value]bool{}
+	return accOfValueSeen(v, li, map[ssa.Value]bool{})
+}
+
+func accOfValueSeen(v ssa.Value, li *loopInfo, seen map[ssa.Value]bool) accRef {
 	for v != nil && !seen[v] {
 		seen[v] = true
 		switch x := v.(type) {
@@ -83,12 +86,16 @@ func accOfValue(v ssa.Value, li *loopInfo) accRef {
 			// a merge inside the trip: follow an operand that leads back to the header phi
 			var next ssa.Value
 			for _, e := range x.Edges {
-				if a := accOfValue(e, li); a.valid() {
+				if seen[e] {
+					continue
+				}
+				if a := accOfValueSeen(e, li, seen); a.valid() {
 					return a
 				}
 				next = e
 			}
-			v = next
+			_ = next
+			return accRef{}
 		case *ssa.Call:
 			if bi, ok := x.Call.Value.(*ssa.Builtin); ok && bi.Name() == "append" {
 				v = x.Call.Args[0]
